@@ -473,10 +473,11 @@ func (a *Analyzer) buildElementTree(result *AnalysisResult) []LayoutElement {
 	return elements
 }
 
-// getListText extracts all text from a list by concatenating item prefixes and text.
+// getListText extracts all text from a list by concatenating item prefixes and text,
+// including the items nested under other items.
 func getListText(list *List) string {
 	var text string
-	for _, item := range list.Items {
+	for _, item := range list.GetAllItems() {
 		text += item.Prefix + " " + item.Text + "\n"
 	}
 	return text
